@@ -53,8 +53,8 @@ def csMonitor (env : CsEnv) (cfg : CsCfg) (req : CsReq) (obs : Resp) : Option St
       some "cs: strict handler ran on a signature that covers X-Request-Uri, not the request's path/query"
     else some "cs: strict handler ran without a covering signature"
   else if obs.panic then none
-  else if !csCovers env cfg req ∧ obs.status ≠ 403 then
-    some s!"cs: unverified request answered {obs.status}, not 403"
+  else if !csCovers env cfg req ∧ obs.status < 400 then
+    some s!"cs: unverified request answered {obs.status}, not an error status"
   else none
 
 /-! ## encrypted bodies -/
